@@ -86,6 +86,12 @@ def run(tier, seed, replay=None):
         # loadable files whose pruning needs deletions that enable each other: a chain of unreferenced nodes, stored
         # child-before-parent / parent-before-child / alternating (convergence within two rounds of the default save)
         lsamples = samples if tier != "quick" else samples[::4]
+        # loadable files with messy texture paths (runs of mixed separators, blanks, prefixes): Load cleans them, the
+        # cleaned file must be a fixed point of the raw save and converge under the default save
+        messy = ["textures///armor\\iron\\cuirass.dds", "textures\\\\\\a//b/\\c.dds", "  Data\\Textures//x////y.dds ", "c:/games/data/textures/\\/z.dds",
+                 "armor/////////helmet.dds", "textures\\a.dds"]
+        rcases += ["resave name=%s opts=%s tex=%s" % (f, o, m.encode().hex()) for f in lsamples for o in ("raw", "default")
+                   for m in (messy if tier != "quick" else messy[:4])]
         rcases += ["resave name=%s opts=default loose=%d order=%s" % (f, k, o) for f in lsamples
                    for k in ((4,) if tier == "quick" else (3, 4, 7)) for o in ("rev", "fwd", "mix")]
         fcases = [c[0].replace("blk ", "fileblk ", 1) for c in be.block_cases(info["blocks"], vers, seeds[:1])]
